@@ -131,6 +131,64 @@ fn run_fn(name: &str, f: &[Vec<u8>]) -> (String, Vec<Vec<u8>>) {
                 }
                 out
             }
+            "atp_lines_wd" => {
+                // like atp_lines, but on a watchdog thread: a scanner that does not come back within
+                // arg(1) milliseconds (default 2000) is reported as TIMEOUT <line index>
+                let text = arg(0);
+                let ms: u64 = arg(1).parse().unwrap_or(2000);
+                let (tx, rx) = std::sync::mpsc::channel::<(usize, Option<String>)>();
+                std::thread::spawn(move || {
+                    let mut atp = crate::parse::ActiveTextParser::new(0);
+                    for (i, l) in text.lines().enumerate() {
+                        let _ = tx.send((i, None));
+                        let (_, b) = atp.parse((i, l.to_string()));
+                        let _ = tx.send((i, Some(b)));
+                    }
+                });
+                let mut out: Vec<Vec<u8>> = vec![];
+                let mut cur = 0usize;
+                loop {
+                    match rx.recv_timeout(std::time::Duration::from_millis(ms)) {
+                        Ok((i, None)) => { cur = i; }
+                        Ok((_, Some(b))) => out.push(b.into_bytes()),
+                        Err(std::sync::mpsc::RecvTimeoutError::Disconnected) => break,
+                        Err(std::sync::mpsc::RecvTimeoutError::Timeout) => {
+                            out.push(format!("TIMEOUT {}", cur).into_bytes());
+                            break;
+                        }
+                    }
+                }
+                out
+            }
+            "attr_string" => {
+                // the text `nested::is_active` scans: quote!{#attr}.to_string()
+                let text = format!("{} fn foo(){{}}", arg(0));
+                let item = syn::parse_str::<syn::ItemFn>(&text).expect("attr does not parse");
+                let a = item.attrs.into_iter().next().expect("no attr");
+                let s0 = quote::quote!{ #a }.to_string();
+                let mut atp = crate::parse::ActiveTextParser::new(0);
+                let (_, s1) = atp.parse((0, s0.clone()));
+                vec![s0.into_bytes(), s1.into_bytes(), format!("{}", crate::parse::nested::is_active(&a)).into_bytes()]
+            }
+            "parse_args" => {
+                vec![format!("{:?}", crate::parse::nested::parse_args(&arg(0))).into_bytes()]
+            }
+            "file_ranges" => {
+                let a = arg(0);
+                let args = crate::parse::nested::parse_args(&a);
+                let r = crate::parse::nested::file_in_edit_family(&a, &args);
+                vec![format!("{:?}", r).into_bytes()]
+            }
+            "syn_file" => {
+                // does the text parse as a Rust file (syn is the reference parser)?
+                match syn::parse_file(&arg(0)) {
+                    Ok(f) => vec![b"ok".to_vec(), format!("{}", f.items.len()).into_bytes()],
+                    Err(e) => vec![b"err".to_vec(), e.to_string().into_bytes()],
+                }
+            }
+            "icb_new" => {
+                vec![crate::parse::ItemCodeBlock::new(arg(0)).src.into_bytes()]
+            }
             "edit_remove" => {
                 vec![crate::parse::nested::edit_remove_active_file_args(&arg(0), &arg(1)).into_bytes()]
             }
